@@ -43,7 +43,7 @@ impl Mode {
     }
 }
 
-/// The function under test (the self-test substitutes local copies).
+/// The function under test (indirection kept so that a scratch harness can substitute a local copy).
 pub type ContourFn = dyn Fn(usize, usize, &[bool], Mode) -> Vec<Vec<(i32, i32)>> + Sync;
 
 pub fn rten_contours(h: usize, w: usize, mask: &[bool], mode: Mode) -> Vec<Vec<(i32, i32)>> {
@@ -252,7 +252,10 @@ pub fn check_contours(f: &ContourFn, h: usize, w: usize, mask: &[bool], mode: Mo
             key.push(((y as u64) << 32) | (x as u32 as u64));
         }
     }
-    loc.outcomes.insert(hash_of(&key));
+    if h * w <= 16 {
+        // distinct-outcome bookkeeping only for the small sizes (the big sweeps would need GBs)
+        loc.outcomes.insert(hash_of(&key));
+    }
     fails
 }
 
@@ -410,7 +413,7 @@ impl DrawCase {
     }
 }
 
-/// The drawing functions under test (the self-test substitutes local copies).
+/// The drawing functions under test (indirection kept so that a scratch harness can substitute local copies).
 pub struct DrawFns {
     pub fill_rect: fn(&mut NdTensor<u8, 2>, Rect, u8),
     pub stroke_rect: fn(&mut NdTensor<u8, 2>, Rect, u8, u32),
@@ -476,12 +479,6 @@ pub fn execute(fns: &DrawFns, case: &DrawCase) -> Executed {
         Prim::FillIter => unreachable!(),
     });
     Executed::Image(img, res)
-}
-
-/// Run and check one drawing case.
-pub fn check_draw(fns: &DrawFns, case: &DrawCase, loc: &mut Local) -> Vec<(String, String)> {
-    let ex = execute(fns, case);
-    judge(case, ex, loc)
 }
 
 /// Phase 2: compare what the call did with the allowed region.
@@ -1114,6 +1111,7 @@ pub fn run(ctx: Ctx) -> ! {
             "counts": counts,
             "violating_cases_by_signature_exact": by_sig,
             "distinct_outcomes": distinct_outcomes,
+            "distinct_outcomes_rule": "contours: distinct (mode, contour list) over masks of <= 16 pixels; drawing: distinct (primitive, changed-pixel set, panicked) resp. distinct fill_iter point lists",
             "stuck_watchdog_ms": STUCK.as_millis() as u64,
         }),
         vec![
